@@ -436,9 +436,10 @@ def exec (m : VM) : Except VRes VM :=
           | some (items, rest) =>
             match mkSetItems vHashKey items with
             | some l => .ok { m1 with stack := .set m.heap.size :: rest, heap := m.heap.push l }
-            -- `vm.push(object.NewSet(items))`: NewSet RETURNS the type error of an unhashable item and
-            -- BuildSet pushes that error object as the value of the literal; nothing is raised
-            | none => .ok { m1 with stack := .err "type" none :: rest }
+            -- an unhashable item: `object.NewSet` returns the type error of `Set.Add` and BuildSet raises
+            -- it (since the repair "fix: raise the error of a set literal with an unhashable item";
+            -- before it the error object was pushed as the VALUE of the literal: `buildSetPreFix`)
+            | none => .error (.err "type")
           | none => .error (.err "panic")
         | .buildMap, s =>
           match popN (2 * i.a) s with
@@ -724,5 +725,13 @@ def panicDispatchIndex : Nat → VM → Nat → Option Nat
       if m.raising.isNone && (m'.raising.map (·.cls)) == some "panic" then some k'
       else panicDispatchIndex f m' k'
     | .error _ => none
+
+/-- BEFORE the repair of BuildSet: the value a set literal with an unhashable item evaluated to —
+    the error object itself, pushed like any other value (finding
+    C01-set-literal-unhashable-item-not-raised, fixed) -/
+def buildSetPreFix (items : List VVal) : Option VVal :=
+  match mkSetItems vHashKey items with
+  | some _ => none
+  | none => some (.err "type" none)
 
 end Risor.C01
